@@ -728,7 +728,7 @@ def interpret(case, ctx):
 
 def parts(tier):
     return [
-        hyp_part("v1", s_case_v1, interpret, tier, quick=300, thorough=4000, quick_shards=2, thorough_shards=8),
-        hyp_part("v2", s_case_v2, interpret, tier, quick=300, thorough=5000, quick_shards=2, thorough_shards=12),
-        hyp_part("v3", s_case_v3, interpret, tier, quick=400, thorough=6000, quick_shards=4, thorough_shards=16),
+        hyp_part("v1", s_case_v1, interpret, tier, quick=300, thorough=3000, quick_shards=2, thorough_shards=8),
+        hyp_part("v2", s_case_v2, interpret, tier, quick=300, thorough=3500, quick_shards=2, thorough_shards=12),
+        hyp_part("v3", s_case_v3, interpret, tier, quick=400, thorough=4500, quick_shards=4, thorough_shards=16),
     ]
